@@ -227,7 +227,7 @@ Definition lra_val_of (f : lra_fn) (dur_ns : Z) : option lra_val :=
   | FRate => Some (LVCountDiv (dur_ms dur_ns))
   | FCountOverTime => Some LVCount
   | FBytesRate => Some (LVBytesDiv (dur_ms dur_ns))
-  | FBytesOverTime => Some (LVBytesDiv (dur_ms dur_ns))      (* as in the code: the fragment of bytes_rate *)
+  | FBytesOverTime => Some LVBytes
   | _ => None                                                 (* col stays nil: NewCol(nil).String panics *)
   end.
 Definition lra_val_sql (v : lra_val) : expr :=
@@ -651,13 +651,14 @@ Definition first_lra (s : script) : option lra :=
   | _ => None
   end.
 
-(* AnalyzeMetrics15sShortcut: which pipeline stages let the query run on the 15-second roll-up table *)
+(* AnalyzeMetrics15sShortcut: which pipeline stages let the query run on the 15-second roll-up table:
+   label filters (planTS applies them to the fingerprints) and |= "" / |~ "" *)
 Definition m15_stage_ok (st : stage) : bool :=
   match st with
-  | PParser _ _ => false
-  | PDrop _ => false
-  | PLineFilter _ v _ => String.eqb v ""
-  | _ => true
+  | PLabelFilter _ => true
+  | PLineFilter LFContains v _ => String.eqb v ""
+  | PLineFilter LFRe v _ => String.eqb v ""
+  | _ => false
   end.
 Definition analyze_m15 (s : script) : bool :=
   match first_lra s with
@@ -665,7 +666,6 @@ Definition analyze_m15 (s : script) : bool :=
   | Some l =>
     (match lra_f l with FRate | FCountOverTime => true | _ => false end)
     && negb (Z.ltb (lra_dur_ns l) 15000000000)
-    && negb (last_is_unwrap (sel_pipeline (lra_sel l)))
     && forallb m15_stage_ok (sel_pipeline (lra_sel l))
   end.
 
@@ -760,7 +760,7 @@ Definition plan_metric (s : script) (finalize : bool) : option planner :=
   let ppl := sel_pipeline sel in
   do (cur, lji_set, lidx_set, fp) <-
     (if analyze_m15 s then
-       let fp := PStreamSelect (sel_matchers sel) in
+       let fp := plan_ts (sel_matchers sel) ppl (simple_ops ppl) in
        do (p, wl) <- plan_m15 fp s; Some (p, false, wl, fp)
      else
        let simple := simple_ops ppl in
